@@ -123,6 +123,24 @@ fn conversions<A: Abc>(rec: &mut Recorder, rng: &mut impl Rng, n: usize) {
                 e["bgq"] = json!(sm.background().frequencies().iter().map(|&x| quant(x as f64, Q12)).collect::<Vec<_>>());
                 out.push(e);
             }
+            // a chain of rescales (history on one weight matrix): the result must be the weights under the LAST
+            // background, report that background, and give its log-odds
+            {
+                let (b2, _) = gen_bg_second::<A>(&bn, bd);
+                let (b3, _) = gen_bg_second::<A>(&b2, bd);
+                let chain: Vec<Vec<i64>> = match it % 3 { 0 => vec![b2.clone(), b3.clone()], 1 => vec![b2.clone(), bn.clone()], _ => vec![b2.clone(), b3.clone(), b2.clone()] };
+                let mut cur = wm.clone();
+                let mut okc = true;
+                for b in &chain { match bg_of::<A>(b, bd) { Ok(bb) => cur = cur.rescale(bb), Err(_) => { okc = false; break; } } }
+                if okc {
+                    let sm = cur.to_scoring();
+                    let mut e = base.clone(); e["ev"] = json!("rescale_chain"); e["chain"] = json!(chain); e["bn2"] = json!(chain[chain.len() - 1]); e["bd2"] = json!(bd);
+                    e["q"] = json!(qmat::<A>(cur.matrix(), Q12));
+                    e["bgq"] = json!(cur.background().frequencies().iter().map(|&x| quant(x as f64, Q12)).collect::<Vec<_>>());
+                    e["s"] = json!(qmat::<A>(sm.matrix(), Q10));
+                    out.push(e);
+                }
+            }
             // rescale to a second background == weights under that background
             let (bn2, bd2) = gen_bg_second::<A>(&bn, bd);
             if let Ok(bg2) = bg_of::<A>(&bn2, bd2) {
